@@ -53,8 +53,8 @@ func (r *rng) next() uint64 {
 	z = (z ^ (z >> 27)) * 0x94d049bb133111eb
 	return z ^ (z >> 31)
 }
-func (r *rng) n(k int) int      { return int(r.next() % uint64(k)) }
-func (r *rng) p(pct int) bool   { return r.n(100) < pct }
+func (r *rng) n(k int) int       { return int(r.next() % uint64(k)) }
+func (r *rng) p(pct int) bool    { return r.n(100) < pct }
 func (r *rng) pick(xs []int) int { return xs[r.n(len(xs))] }
 
 // ---------- recording clients ----------
@@ -132,8 +132,8 @@ func handleName(h int) string {
 	}
 	return fmt.Sprintf("h%d", h)
 }
-func blockCIDR(b int) string    { return fmt.Sprintf("10.0.%d.0/29", b) }
-func ipOf(b, ord int) string    { return fmt.Sprintf("10.0.%d.%d", b, ord) }
+func blockCIDR(b int) string { return fmt.Sprintf("10.0.%d.0/29", b) }
+func ipOf(b, ord int) string { return fmt.Sprintf("10.0.%d.%d", b, ord) }
 func numSuffix(s string) int {
 	i := strings.LastIndexAny(s, "-h")
 	n, err := strconv.Atoi(s[i+1:])
@@ -193,9 +193,17 @@ type event struct {
 	API     bool
 	N       int
 	Present bool
+	NonK8s  bool // Calico node without a Kubernetes OrchRef
 	Pod     *podT
 	Block   *blockT
 	D       int
+}
+
+func nodeKindCoq(e event) string {
+	if !e.Present {
+		return "None"
+	}
+	return fmt.Sprintf("(Some %v)", !e.NonK8s)
 }
 
 func (a attrsT) coq() string { return fmt.Sprintf("(mkAt %d %d %v)", a.Node, a.Pod, a.Tun) }
@@ -233,9 +241,9 @@ func (e event) coq() string {
 	case "knode":
 		return fmt.Sprintf("Ev (EKNode %d %v)", e.N, e.Present)
 	case "cnodeapi":
-		return fmt.Sprintf("Ev (ECNodeApi %d %v)", e.N, e.Present)
+		return fmt.Sprintf("Ev (ECNodeApi %d %s)", e.N, nodeKindCoq(e))
 	case "cnodesync":
-		return fmt.Sprintf("Ev (ECNodeSync %d %v)", e.N, e.Present)
+		return fmt.Sprintf("Ev (ECNodeSync %d %s)", e.N, nodeKindCoq(e))
 	case "block":
 		if e.Block == nil {
 			return fmt.Sprintf("Ev (EBlock %d None)", e.N)
@@ -299,10 +307,15 @@ func mkPod(p int, v *podT) *v1.Pod {
 	return pod
 }
 
-func calicoNode(n int) *internalapi.Node {
+func calicoNode(n int, nonK8s bool) *internalapi.Node {
 	cn := internalapi.NewNode()
 	cn.Name = nodeName(n)
-	cn.Spec.OrchRefs = []internalapi.OrchRef{{NodeName: nodeName(n), Orchestrator: "k8s"}}
+	if nonK8s {
+		// bare-metal / OpenStack host sharing the datastore: no Kubernetes OrchRef
+		cn.Spec.OrchRefs = []internalapi.OrchRef{{NodeName: nodeName(n), Orchestrator: "openstack"}}
+	} else {
+		cn.Spec.OrchRefs = []internalapi.OrchRef{{NodeName: nodeName(n), Orchestrator: "k8s"}}
+	}
 	return cn
 }
 
@@ -388,14 +401,14 @@ func (r *runner) apply(e event) {
 		}
 	case "cnodeapi":
 		if e.Present {
-			r.nd.nodes[nodeName(e.N)] = calicoNode(e.N)
+			r.nd.nodes[nodeName(e.N)] = calicoNode(e.N, e.NonK8s)
 		} else {
 			delete(r.nd.nodes, nodeName(e.N))
 		}
 	case "cnodesync":
 		key := model.ResourceKey{Kind: internalapi.KindNode, Name: nodeName(e.N)}
 		if e.Present {
-			r.ctl.HandleUpdate(model.KVPair{Key: key, Value: calicoNode(e.N)})
+			r.ctl.HandleUpdate(model.KVPair{Key: key, Value: calicoNode(e.N, e.NonK8s)})
 		} else {
 			r.ctl.HandleUpdate(model.KVPair{Key: key})
 		}
@@ -544,6 +557,7 @@ type gen struct {
 	nNodes  int
 	nPods   int
 	nBlocks int
+	nonk8s  map[int]bool  // Calico nodes that are not Kubernetes nodes in this case
 	handles map[int]hinfo // attributes are a function of the handle within one case (node attr of an id never changes)
 	truth   map[int]*blockT
 	seq     map[int]uint64
@@ -639,14 +653,14 @@ func (g *gen) history(n int) []event {
 	emit := func(e event) { evs = append(evs, e) }
 	// start: nodes known everywhere (mostly)
 	for nd := 1; nd <= g.nNodes; nd++ {
-		if g.r.p(90) {
+		if g.r.p(90) && (!g.nonk8s[nd] || g.r.p(10)) {
 			emit(event{Kind: "knode", N: nd, Present: true})
 		}
 		if g.r.p(90) {
-			emit(event{Kind: "cnodeapi", N: nd, Present: true})
+			emit(event{Kind: "cnodeapi", N: nd, Present: true, NonK8s: g.nonk8s[nd]})
 		}
 		if g.r.p(85) {
-			emit(event{Kind: "cnodesync", N: nd, Present: true})
+			emit(event{Kind: "cnodesync", N: nd, Present: true, NonK8s: g.nonk8s[nd]})
 		}
 	}
 	for len(evs) < n {
@@ -794,12 +808,17 @@ func (g *gen) history(n int) []event {
 		case x < 58: // node lifecycle
 			nd := 1 + g.r.n(g.nNodes)
 			present := g.r.p(35)
+			nk := g.nonk8s[nd]
+			if g.r.p(6) {
+				nk = !nk // the node changes kind (re-registered)
+				g.tags["node-kind-change"] = true
+			}
 			y := g.r.n(100)
 			switch {
 			case y < 50:
 				emit(event{Kind: "knode", N: nd, Present: present})
-				emit(event{Kind: "cnodeapi", N: nd, Present: present})
-				emit(event{Kind: "cnodesync", N: nd, Present: present})
+				emit(event{Kind: "cnodeapi", N: nd, Present: present, NonK8s: nk})
+				emit(event{Kind: "cnodesync", N: nd, Present: present, NonK8s: nk})
 				if !present {
 					emit(event{Kind: "full"})
 				}
@@ -809,9 +828,9 @@ func (g *gen) history(n int) []event {
 					emit(event{Kind: "full"})
 				}
 			case y < 85:
-				emit(event{Kind: "cnodesync", N: nd, Present: present})
+				emit(event{Kind: "cnodesync", N: nd, Present: present, NonK8s: nk})
 			default:
-				emit(event{Kind: "cnodeapi", N: nd, Present: present})
+				emit(event{Kind: "cnodeapi", N: nd, Present: present, NonK8s: nk})
 			}
 			g.tags["node-change"] = true
 		case x < 72: // time
@@ -840,10 +859,34 @@ type line struct {
 	Tags   []string       `json:"tags"`
 }
 
+// Scripted histories around a live Calico node that is not a Kubernetes node (cached "" by the syncer) owning a tunnel
+// address and blocks: nothing of it may be released; variant 1: the Calico node is gone from the datastore, the cache
+// lags (release is legitimate); variant 2: an empty second block past the grace period (releaseUnusedBlocks path).
+func scenarioCase(k int) line {
+	g := 900
+	tun := attrsT{Node: 1, Tun: true}
+	evs := []event{{Kind: "cnodesync", N: 1, Present: true, NonK8s: true}}
+	if k != 1 {
+		evs = append(evs, event{Kind: "cnodeapi", N: 1, Present: true, NonK8s: true})
+	}
+	evs = append(evs,
+		event{Kind: "block", N: 1, Block: &blockT{Aff: 1, Allocs: []ballocT{{Ord: 0, Handle: 21, At: tun, Seq: 1}}}},
+		event{Kind: "block", N: 2, Block: &blockT{Aff: 1}},
+		event{Kind: "sync"}, event{Kind: "full"}, event{Kind: "sync"},
+		event{Kind: "tick", D: 901}, event{Kind: "full"}, event{Kind: "sync"},
+		event{Kind: "block", N: 3, Block: &blockT{Aff: 1}}, event{Kind: "sync"},
+		event{Kind: "tick", D: 901}, event{Kind: "sync"}, event{Kind: "full"}, event{Kind: "sync"})
+	return execute(uint64(k), &g, evs, map[string]bool{"scenario": true, "non-k8s-node": true, "grace:900": true})
+}
+
 func runCase(cs uint64) line {
 	r := &rng{s: cs}
 	g := &gen{r: r, nNodes: 2 + r.n(2), nPods: 2 + r.n(3), nBlocks: 2 + r.n(2), handles: map[int]hinfo{}, truth: map[int]*blockT{},
-		seq: map[int]uint64{}, tags: map[string]bool{}}
+		seq: map[int]uint64{}, tags: map[string]bool{}, nonk8s: map[int]bool{}}
+	if r.p(40) {
+		g.nonk8s[g.nNodes] = true
+		g.tags["non-k8s-node"] = true
+	}
 	var grace *int
 	gtag := "grace:nil"
 	switch x := r.n(100); {
@@ -1040,7 +1083,14 @@ func main() {
 			if err := enc.Encode(map[string]any{"batchcut": bc}); err != nil {
 				panic(err)
 			}
-			for i := 0; i < *n; i++ {
+			for k := 0; k < 3 && k < *n; k++ {
+				var l line
+				synctest.Test(t, func(t *testing.T) { l = scenarioCase(k) })
+				if err := enc.Encode(l); err != nil {
+					panic(err)
+				}
+			}
+			for i := 3; i < *n; i++ {
 				cs := r.next()
 				if cs == 0 {
 					cs = 1
